@@ -487,7 +487,7 @@ def classify(i, res):
 
 def run(ctx):
     rng = ctx.rng
-    n = ctx.budget(110, 1200)
+    n = ctx.budget(90, 600)
     cases, seen = [], set()
     corpus = [c["case"] if "case" in c else c for c in ctx.corpus()]
     for c in corpus:
